@@ -174,6 +174,61 @@ def valid_for(form, s):
     return True
 
 
+def end_to_end(ctx, extended, specv):
+    """C. print in brush -> eval in a fresh brush and in bash -> compare (needs no model)"""
+    vals, ex2 = gen_strings(ctx, 2, 250 if ctx.quick else 3000, rlen=24)
+    if extended:
+        more, _ = gen_strings(ctx, 0, 3000, rlen=40)
+        vals = vals + more
+    pcases = [(f, s) for s in vals for f in FORMS if valid_for(f, s)]
+    prod = ctx.impl("c13produce", [[f, s] for f, s in pcases])
+    ccases = []
+    for (f, s), line in zip(pcases, prod):
+        st, _, h = line.partition(" ")
+        text = core.dec_line(h)[0] if (h and not line.startswith(("PANIC", "DIED", "TIMEOUT", "?"))) else None
+        if text is None or st != "0":
+            specv.append({"input": {"form": f, "value": s}, "why": "printing failed: %s" % line[:200]})
+            continue
+        for rd in FORM_READER[f]:
+            ccases.append((f, s, rd, text))
+    cons = ctx.impl("c13consume", [[rd, t] for f, s, rd, t in ccases])
+    use_bash = [i for i in range(len(ccases))]
+    if ctx.quick and not extended:
+        use_bash = sorted(ctx.rng.sample(use_bash, min(2500, len(use_bash))))
+    bres = dict(zip(use_bash, bash_many([(ccases[i][2], ccases[i][3]) for i in use_bash])))
+    e2e = {"brush_ok": 0, "brush_bad": 0, "bash_ok": 0, "bash_bad": 0}
+    per_form = {}
+    for i, ((f, s, rd, t), line) in enumerate(zip(ccases, cons)):
+        want = expected(f, rd, s)
+        st, got, e0 = brush_fields(line)
+        pf = per_form.setdefault(f, {"cases": 0, "brush_bad": 0, "bash_bad": 0})
+        pf["cases"] += 1
+        if got == want and st == "0":
+            e2e["brush_ok"] += 1
+        else:
+            e2e["brush_bad"] += 1
+            pf["brush_bad"] += 1
+            kf = classify(f, s, "brush")
+            if not (kf and sum(1 for v in specv if v.get("known") == kf) > 60):
+                specv.append({"input": {"form": f, "value": s, "reader": "brush:" + rd},
+                              "why": "brush printed %r; evaluating it in brush gives %r (status %s), expected %r" % (t, got, st, want),
+                              **({"known": kf} if kf else {})})
+        if i in bres:
+            bgot = norm_bash(f, rd, bres[i])
+            if bgot == want:
+                e2e["bash_ok"] += 1
+            else:
+                e2e["bash_bad"] += 1
+                pf["bash_bad"] += 1
+                kf = classify(f, s, "bash")
+                if not (kf and sum(1 for v in specv if v.get("known") == kf) > 60):
+                    specv.append({"input": {"form": f, "value": s, "reader": "bash:" + rd},
+                                  "why": "brush printed %r; evaluating it in bash gives %r, expected %r" % (t, bgot, want),
+                                  **({"known": kf} if kf else {})})
+
+    return e2e, per_form, pcases, ccases, vals
+
+
 def run(ctx, extended=False):
     notes = []
     mism, specv = [], []
@@ -265,56 +320,7 @@ def run(ctx, extended=False):
         raise core.CheckBroken("the reader specification disagrees with bash (the spec is wrong, not the code): %r"
                                % spec_vs_bash["disagree"][:5])
 
-    # ------------------------------------------------------------------ C. end to end: print -> eval -> compare
-    vals, ex2 = gen_strings(ctx, 2, 250 if ctx.quick else 3000, rlen=24)
-    if extended:
-        more, _ = gen_strings(ctx, 0, 3000, rlen=40)
-        vals = vals + more
-    pcases = [(f, s) for s in vals for f in FORMS if valid_for(f, s)]
-    prod = ctx.impl("c13produce", [[f, s] for f, s in pcases])
-    ccases = []
-    for (f, s), line in zip(pcases, prod):
-        st, _, h = line.partition(" ")
-        text = core.dec_line(h)[0] if (h and not line.startswith(("PANIC", "DIED", "TIMEOUT", "?"))) else None
-        if text is None or st != "0":
-            specv.append({"input": {"form": f, "value": s}, "why": "printing failed: %s" % line[:200]})
-            continue
-        for rd in FORM_READER[f]:
-            ccases.append((f, s, rd, text))
-    cons = ctx.impl("c13consume", [[rd, t] for f, s, rd, t in ccases])
-    use_bash = [i for i in range(len(ccases))]
-    if ctx.quick and not extended:
-        use_bash = sorted(ctx.rng.sample(use_bash, min(2500, len(use_bash))))
-    bres = dict(zip(use_bash, bash_many([(ccases[i][2], ccases[i][3]) for i in use_bash])))
-    e2e = {"brush_ok": 0, "brush_bad": 0, "bash_ok": 0, "bash_bad": 0}
-    per_form = {}
-    for i, ((f, s, rd, t), line) in enumerate(zip(ccases, cons)):
-        want = expected(f, rd, s)
-        st, got, e0 = brush_fields(line)
-        pf = per_form.setdefault(f, {"cases": 0, "brush_bad": 0, "bash_bad": 0})
-        pf["cases"] += 1
-        if got == want and st == "0":
-            e2e["brush_ok"] += 1
-        else:
-            e2e["brush_bad"] += 1
-            pf["brush_bad"] += 1
-            kf = classify(f, s, "brush")
-            if not (kf and sum(1 for v in specv if v.get("known") == kf) > 60):
-                specv.append({"input": {"form": f, "value": s, "reader": "brush:" + rd},
-                              "why": "brush printed %r; evaluating it in brush gives %r (status %s), expected %r" % (t, got, st, want),
-                              **({"known": kf} if kf else {})})
-        if i in bres:
-            bgot = norm_bash(f, rd, bres[i])
-            if bgot == want:
-                e2e["bash_ok"] += 1
-            else:
-                e2e["bash_bad"] += 1
-                pf["bash_bad"] += 1
-                kf = classify(f, s, "bash")
-                if not (kf and sum(1 for v in specv if v.get("known") == kf) > 60):
-                    specv.append({"input": {"form": f, "value": s, "reader": "bash:" + rd},
-                                  "why": "brush printed %r; evaluating it in bash gives %r, expected %r" % (t, bgot, want),
-                                  **({"known": kf} if kf else {})})
+    e2e, per_form, pcases, ccases, vals = end_to_end(ctx, extended, specv)
 
     # ------------------------------------------------------------------ D. extraction cross-check
     sidx = ctx.rng.sample(range(len(qcases)), 30)
@@ -353,7 +359,7 @@ def run(ctx, extended=False):
         "extraction_crosscheck": {"cases": len(sidx) + len(ridx2), "agree": len(sidx) + len(ridx2)},
         "spec_vs_bash": {"cases": spec_vs_bash["cases"], "agree": spec_vs_bash["agree"]},
         "notes": notes + ["reader spec vs brush reader: %r" % spec_vs_brush_reader,
-                          "regenerated flag positional_escaping (needs_escaping_at present in escape.rs): see gen/EscapeTables.v"],
+                          "regenerated flag positional_escaping (needs_escaping_at present in escape.rs): see gen/C13EscapeTables.v"],
         "model_mismatches": mism,
         "spec_violations": specv,
     }
@@ -373,7 +379,9 @@ def search(ctx, res):
 
 
 def run_code_only(ctx):
-    """model did not build: code vs the property end to end only"""
-    class NoModel:
-        pass
-    raise core.CheckBroken("C13 needs the extracted reader specification; the Coq development does not build")
+    """the Coq development does not build: the property is still decided end to end on the code"""
+    specv = []
+    e2e, per_form, pcases, ccases, vals = end_to_end(ctx, True, specv)
+    return {"evaluations": len(pcases) + len(ccases), "distinct_nontrivial": len({(f, s) for f, s in pcases if s}),
+            "rule": "code only (model did not build): print in brush, eval in brush and bash, compare", "samples": [],
+            "distribution": {"e2e": e2e, "per_form": per_form}, "spec_violations": specv}
